@@ -434,7 +434,7 @@ impl<'a> ReplyData<'a> {
             .find(|(_, reply_on)| reply_on == &ReplyOn::Success || reply_on == &ReplyOn::Always)
         {
             Some((method_name, reply_on)) if reply_on == &ReplyOn::Success => {
-                let payload_values = self.payload.iter().map(|field| field.name());
+                let payload_values = self.payload.payload_idents();
                 let payload_deserialization = self.payload.emit_payload_deserialization();
                 let data_deserialization = self.data.map(DataField::emit_data_deserialization);
                 let data = self.data.map(|_| quote! { data, });
@@ -451,7 +451,7 @@ impl<'a> ReplyData<'a> {
                 }
             }
             Some((method_name, reply_on)) if reply_on == &ReplyOn::Always => {
-                let payload_values = self.payload.iter().map(|field| field.name());
+                let payload_values = self.payload.payload_idents();
                 let payload_deserialization = self.payload.emit_payload_deserialization();
 
                 quote! {
@@ -489,7 +489,7 @@ impl<'a> ReplyData<'a> {
             .find(|(_, reply_on)| reply_on == &ReplyOn::Error || reply_on == &ReplyOn::Always)
         {
             Some((method_name, reply_on)) if reply_on == &ReplyOn::Error => {
-                let payload_values = self.payload.iter().map(|field| field.name());
+                let payload_values = self.payload.payload_idents();
                 let payload_deserialization = self.payload.emit_payload_deserialization();
 
                 quote! {
@@ -501,7 +501,7 @@ impl<'a> ReplyData<'a> {
                 }
             }
             Some((method_name, reply_on)) if reply_on == &ReplyOn::Always => {
-                let payload_values = self.payload.iter().map(|field| field.name());
+                let payload_values = self.payload.payload_idents();
                 let payload_deserialization = self.payload.emit_payload_deserialization();
 
                 quote! {
@@ -681,23 +681,34 @@ pub trait PayloadFields {
     fn emit_payload_deserialization(&self) -> TokenStream;
     fn emit_payload_serialization(&self) -> TokenStream;
     fn is_payload_marked(&self) -> bool;
+    /// Names the deserialized payload values are bound to inside `dispatch_reply`.
+    /// Generated, so that payload parameters called e.g. `env` or `deps` don't shadow
+    /// the dispatcher's own variables.
+    fn payload_idents(&self) -> Vec<Ident>;
 }
 
 impl PayloadFields for Vec<&MsgField<'_>> {
     fn emit_payload_deserialization(&self) -> TokenStream {
         let sylvia = crate_module();
+        let deserialized_payload_names = self.payload_idents();
         if self.is_payload_marked() {
             // Safe to unwrap as we check if the payload exist.
-            let payload_value = self.first().unwrap().name();
+            let payload_value = deserialized_payload_names.first().unwrap();
             return quote! {
                 let #payload_value = payload ;
             };
         }
 
-        let deserialized_payload_names = self.iter().map(|field| field.name());
         quote! {
             let ( #(#deserialized_payload_names),* ) = #sylvia ::cw_std::from_json(&payload)?;
         }
+    }
+
+    fn payload_idents(&self) -> Vec<Ident> {
+        self.iter()
+            .zip(1..)
+            .map(|(field, num)| Ident::new(&format!("sv_payload_field{}", num), field.name().span()))
+            .collect()
     }
 
     fn emit_payload_serialization(&self) -> TokenStream {
